@@ -1,18 +1,59 @@
-"""C16 — numerical kernels meet their contracts (decided clauses: GL tables, rotation shape)."""
+"""C16 - numerical kernels meet their contracts (decided clauses: GL tables and panel driver, rotation algebra, Simpson)."""
 from .. import project
-from ..framework import Report
-from ..rules import tablemath
+from ..framework import Report, where
+from ..rules import tablemath, panels, symalg, simpson
+from ..rules.symalg import Poly
 
 
 def run(tier, seed):
     rep = Report('C16')
     prog = project.load(files=[project.repo_unit('bxdecay0/dgmlt1.cc'), project.repo_unit('bxdecay0/dgmlt2.cc'),
-                               project.repo_unit('bxdecay0/utils.cc')])
+                               project.repo_unit('bxdecay0/utils.cc'), project.repo_unit('bxdecay0/tsimpr.cc')])
     rep.analysed['units'] = sorted(project.relpath(u) for u in prog.units)
     tablemath.check_tables(rep, prog)
     rep.floor('TABLE-MATH.moments', sum(1 for i in rep.instances if i.rule == 'TABLE-MATH.moments'), 56)
+    for r, t in (('PANELS.fill', 'one buffer slot per (node, panel) pair'), ('PANELS.pairing', 'weight and node of a slot share the table index'),
+                 ('PANELS.node-map', 'affine map of the reference node onto the panel'), ('PANELS.panel-loop', 'all NI panels are visited'),
+                 ('PANELS.group', 'the node loop covers exactly one tabulated rule'), ('PANELS.flush', 'flush evaluates and sums exactly the buffered slots'),
+                 ('PANELS.chunking', 'first chunk size congruent to the node count modulo the buffer size: every node summed exactly once'),
+                 ('PANELS.scale', 'result scaled by half the panel width')):
+        rep.rule(r, t)
+    for qn in ('bxdecay0::decay0_dgmlt1', 'bxdecay0::decay0_dgmlt2'):
+        fn = prog.fn(qn)
+        groups = {order: off for off, order in tablemath._groups(fn)}
+        panels.check(rep, prog, qn, groups)
+    # ---- Euler rotation
+    rep.rule('ROTATION', 'rotate_zyz(p, phi, theta, psi) is a proper rotation for all angles and equals Rz(phi) Ry(theta) Rz(psi) p '
+             '(polynomial identities modulo sin^2 + cos^2 = 1)')
+    A = symalg.Alg(prog)
+    rz = prog.fn('bxdecay0::rotate_zyz')
+    p = {'x': Poly.sym('px'), 'y': Poly.sym('py'), 'z': Poly.sym('pz')}
+    names = [q['name'] for q in rz['params'][1:4]]
+    r = A.call(rz, [p] + [Poly.sym(n) for n in ('phi', 'theta', 'psi')])
+    M = symalg.linear_map(r, ['px', 'py', 'pz'])
+    ok, why = symalg.is_rotation(M)
+    rep.add('ROTATION', 'orthonormal', where(rz), 'A^T A = 1 and det A = +1 for the matrix A of rotate_zyz', ok, why or None)
+
+    def Rz(a):
+        c, s = Poly.sym('c:' + a), Poly.sym('s:' + a)
+        return [[c, -s, Poly()], [s, c, Poly()], [Poly(), Poly(), Poly.const(1)]]
+
+    def Ry(a):
+        c, s = Poly.sym('c:' + a), Poly.sym('s:' + a)
+        return [[c, Poly(), s], [Poly(), Poly.const(1), Poly()], [-s, Poly(), c]]
+
+    def mm(X, Y):
+        return [[sum((X[i][k] * Y[k][j] for k in range(3)), Poly()) for j in range(3)] for i in range(3)]
+    want = mm(Rz('phi'), mm(Ry('theta'), Rz('psi')))
+    same = all(M[i][j] == want[i][j] for i in range(3) for j in range(3))
+    rep.add('ROTATION', 'composition', where(rz), 'A = Rz(phi) Ry(theta) Rz(psi): psi about z first, then theta about y, then phi about z, as documented '
+            'in the source', same, None if same else 'A = %r' % M)
+    for nm, sz in (('transpose', None), ('multiply', None)):
+        pass
+    simpson.check(rep, prog)
     rep.assumptions += [
-        'decides only: Gauss-Legendre table exactness (moment identities, exact rationals) and table/sibling agreement',
-        'not decided: adaptive quadrature tolerance, Simpson, golden section, divided differences, Fermi function values',
+        'decides: Gauss-Legendre table exactness (moment identities, exact rationals), table/sibling agreement, the panel driver (every node '
+        'summed once with its own weight, affine node map, scale), rotate_zyz algebra, Simpson weights and exactness on cubics as polynomial identities',
+        'not decided: adaptive quadrature tolerance (GSL QNG), golden section, divided differences, Fermi function values',
     ]
     return rep
